@@ -191,6 +191,43 @@ def formatsOK (tbl : List (String × List Nat × Nat)) : Bool :=
 /-- **The binder prefixes of the current source never clash** (regenerated table). -/
 theorem binder_formats_no_clash : formatsOK Generated.binderFormats = true := by decide +kernel
 
+/-- The binder formats of the current source, handler by handler (prefix as code points; kind 0 = tuple index, 1 = field
+    identifier). Every generated pattern binding is made by `format_ident!` with one of these - which, unlike a name
+    assembled as text, also turns a raw identifier (`r#type`) into a valid one (`_s_type`). A binding made any other way
+    drops out of this table. -/
+def expectedBinderFormats : List (String × List Nat × Nat) := [
+  ("trait_handlers/clone/clone_enum.rs", [95], 0),
+  ("trait_handlers/clone/clone_enum.rs", [95, 95], 0),
+  ("trait_handlers/clone/clone_enum.rs", [95, 100, 95], 1),
+  ("trait_handlers/clone/clone_enum.rs", [95, 115, 95], 1),
+  ("trait_handlers/debug/common.rs", [], 1),
+  ("trait_handlers/debug/debug_enum.rs", [95], 1),
+  ("trait_handlers/debug/debug_enum.rs", [95], 0),
+  ("trait_handlers/debug/debug_struct.rs", [95], 0),
+  ("trait_handlers/deref/deref_enum.rs", [95], 0),
+  ("trait_handlers/deref_mut/deref_mut_enum.rs", [95], 0),
+  ("trait_handlers/hash/hash_enum.rs", [95], 0),
+  ("trait_handlers/hash/hash_enum.rs", [118, 95], 1),
+  ("trait_handlers/hash/mod.rs", [], 1),
+  ("trait_handlers/into/into_enum.rs", [95], 0),
+  ("trait_handlers/into/into_enum.rs", [118, 95], 1),
+  ("trait_handlers/ord/ord_enum.rs", [95], 0),
+  ("trait_handlers/ord/ord_enum.rs", [95, 95], 0),
+  ("trait_handlers/ord/ord_enum.rs", [95, 111, 95], 1),
+  ("trait_handlers/ord/ord_enum.rs", [95, 115, 95], 1),
+  ("trait_handlers/partial_eq/partial_eq_enum.rs", [95], 0),
+  ("trait_handlers/partial_eq/partial_eq_enum.rs", [95, 95], 0),
+  ("trait_handlers/partial_eq/partial_eq_enum.rs", [95, 111, 95], 1),
+  ("trait_handlers/partial_eq/partial_eq_enum.rs", [95, 115, 95], 1),
+  ("trait_handlers/partial_ord/partial_ord_enum.rs", [95], 0),
+  ("trait_handlers/partial_ord/partial_ord_enum.rs", [95, 95], 0),
+  ("trait_handlers/partial_ord/partial_ord_enum.rs", [95, 111, 95], 1),
+  ("trait_handlers/partial_ord/partial_ord_enum.rs", [95, 115, 95], 1)
+]
+
+theorem binder_formats_unchanged : Generated.binderFormats = expectedBinderFormats := by decide +kernel
+
+
 /-- Non-vacuity: the scheme `_x` / `__x` for *named* fields would clash (fields `x` and `_x`). -/
 example : noClash 1 [95] [95, 95] = false := by decide
 example : noClash 0 [95] [95, 95] = true := by decide
